@@ -275,6 +275,11 @@ func vfC06Direct(rec *evid.Rec, ep int) {
 	fm := vfNewFileMap(max)
 	first := map[uint64]string{}
 	reissued := map[uint64]bool{} // values the table handed out again for another path
+	// The recorded finding is reuse of ids freed one at a time (Release, eviction: the min-heap
+	// free list). ReleaseAll empties the free list and keeps counting, so a value issued before
+	// a ReleaseAll can only come back if the numbering itself was reset - a different failure.
+	issuedIn := map[uint64]int{} // value -> ReleaseAll epoch of its latest issue
+	epoch := 0
 	var ops []string
 	lastTrigger := "none"
 	for i := 0; i < 200; i++ {
@@ -292,12 +297,17 @@ func vfC06Direct(rec *evid.Rec, ep int) {
 					map[string]any{"episode": ep, "max": max, "ops": append([]string(nil), ops...)})
 			} else if fp, seen := first[id]; seen && fp != p {
 				reissued[id] = true
-				rec.Violate("C06/freed-value-reissued-for-another-path",
+				sig := "C06/freed-value-reissued-for-another-path"
+				if issuedIn[id] < epoch {
+					sig = "C06/value-issued-before-ReleaseAll-issued-again-for-another-path"
+				}
+				rec.Violate(sig,
 					fmt.Sprintf("handle value %d was first issued for %s and is now issued for %s [max=%d]", id, fp, p, max),
 					map[string]any{"episode": ep, "max": max, "ops": append([]string(nil), ops...)})
 			} else if !seen {
 				first[id] = p
 			}
+			issuedIn[id] = epoch
 			rec.Eval(1)
 			rec.Distinct(fmt.Sprintf("direct|alloc|after=%s", lastTrigger))
 		case k < 85: // replay an old value
@@ -342,6 +352,7 @@ func vfC06Direct(rec *evid.Rec, ep int) {
 		default:
 			ops = append(ops, "ReleaseAll")
 			fm.ReleaseAll()
+			epoch++
 			lastTrigger = "releaseall"
 		}
 	}
@@ -374,15 +385,22 @@ func vfC06Handlers(rec *evid.Rec, ep int) {
 		}
 		return "without-reissue"
 	}
+	issuedIn := map[uint64]int{} // value -> Unexport epoch of its latest issue (see vfC06Direct)
+	epoch := 0
 	note := func(h uint64, p string) {
 		if fp, seen := first[h]; seen && fp != p {
 			reissued[h] = true
-			rec.Violate("C06/handler/freed-value-reissued-for-another-path",
+			sig := "C06/handler/freed-value-reissued-for-another-path"
+			if issuedIn[h] < epoch {
+				sig = "C06/handler/value-issued-before-Unexport-issued-again-for-another-path"
+			}
+			rec.Violate(sig,
 				fmt.Sprintf("handle value %d was first issued for %s and is now issued for %s [max=%d]", h, fp, p, max),
 				map[string]any{"episode": ep, "max": max, "ops": append([]string(nil), ops...)})
 		} else if !seen {
 			first[h] = p
 		}
+		issuedIn[h] = epoch
 	}
 	root, err := c.mnt("/")
 	if err != nil {
@@ -453,6 +471,7 @@ func vfC06Handlers(rec *evid.Rec, ep int) {
 		case k < 95:
 			ops = append(ops, "Unexport+Export")
 			srv.nfs.Unexport()
+			epoch++
 			lastTrigger = "unexport"
 			if rng.Intn(2) == 0 {
 				if err := srv.nfs.Export("/", 0); err == nil {
